@@ -54,9 +54,11 @@ class HookedIO(FileIO):
 
 
 class World:
-    def __init__(self, root):
+    def __init__(self, root, epoch=False):
         self.root = root
-        self.base = int(time.time()) - 100000
+        # virtual clock of the files: normally recent times; with epoch=True version k has modification time k
+        # (the first version exactly 0.0, as in epoch-normalised checkouts and archives)
+        self.base = 0 if epoch else int(time.time()) - 100000
         self.ver = {}
         self.touch_of = {}
         os.makedirs(root, exist_ok=True)
@@ -139,10 +141,10 @@ def gen_history(r, mixed):
     return h
 
 
-def run_history(h, root, gc_trigger=None):
+def run_history(h, root, gc_trigger=None, epoch=False):
     """returns list of observations for parse steps: (step index, key, start version, end version, served content version or None, fresh_equal)"""
     shutil.rmtree(root, ignore_errors=True)
-    W = World(root)
+    W = World(root, epoch)
     for f in ('f0', 'f1', 'f2', 'f3'):
         W.write(f)
     pcache.parser_cache.clear()
@@ -273,7 +275,7 @@ def run(ctx, b, drv):
         for i in range(800 if ctx.tier == 'quick' else 16000):
             r = gens.rng(ctx.seed, 'cache-mixed', i)
             h = gen_history(r, mixed=True)
-            obs, W = run_history(h, root, gc_trigger=r.choice([None, 1, 2, 3]))
+            obs, W = run_history(h, root, gc_trigger=r.choice([None, 1, 2, 3]), epoch=r.random() < 0.3)
             ctx.count('cache-mixed-histories')
             ctx.nontrivial(('cache-mixed', tuple(h)))
             check_obs(ctx, h, obs, W, 'cache-mixed', i)
